@@ -6,7 +6,8 @@ Import String.StringSyntax.
 From DT Require Import PyStr PyVal PyAst Locate SyncProps C15Spec C14Spec SyncPropsFacts C14Facts.
 Import ListNotations.
 
-(* the full statement is false of the faithful model: the module docstring of the output file is rewritten *)
+(* the full statement is false of the faithful model: an assignment that replaces a method argument writes its value
+   into ANOTHER argument's default (front-indexed slot, shifted by self) *)
 Theorem C14_refuted : ~ C14_statement.
 Proof. exact C14_refuted_lemma. Qed.
 Print Assumptions C14_refuted.
@@ -39,7 +40,7 @@ Theorem C14_input_not_found : forall x i0 o0,
 Proof. exact C14_not_found_no_write. Qed.
 Print Assumptions C14_input_not_found.
 
-(* inside the guard (one pair, addresses in the regions C15 covers, no output docstring, no eval): an address
+(* inside the guard (one pair, addresses in the regions C15 covers, no eval): an address
    that does not resolve gives an error and no write; a write replaces exactly the node at the RESOLVED position
    of the output address, and the input address resolves *)
 Theorem C14_partial : forall x, guard_C14 x = true -> C14_holds x.
@@ -47,12 +48,26 @@ Proof. exact C14_partial_lemma. Qed.
 Print Assumptions C14_partial.
 
 (* further refutation witnesses, one per defect *)
-Theorem C14_keyword_only_input_not_applied :
-  C14_domain (w_call w_in_kw [L "f.a"] w_out [L "g.x"] None) = true
-  /\ run_C14 (w_call w_in_kw [L "f.a"] w_out [L "g.x"] None) = ([], Err AssertionError)
-  /\ addresses_resolve (w_call w_in_kw [L "f.a"] w_out [L "g.x"] None) = true.
-Proof. exact C14_refuted_kwonly. Qed.
-Print Assumptions C14_keyword_only_input_not_applied.
+Theorem C14_nested_input_not_applied :
+  C14_domain (w_call w_in_nested [L "C.D.z"] w_out_z [L "z"] None) = true
+  /\ addresses_resolve (w_call w_in_nested [L "C.D.z"] w_out_z [L "z"] None) = true
+  /\ run_C14 (w_call w_in_nested [L "C.D.z"] w_out_z [L "z"] None) = ([], Err AssertionError)
+  /\ finding_class_C14 (w_call w_in_nested [L "C.D.z"] w_out_z [L "z"] None) = Some K14_input_lookup.
+Proof. exact C14_refuted_nested_input. Qed.
+Print Assumptions C14_nested_input_not_applied.
+
+(* regression lemmas for the defects fixed in /repo 3e792de and 6d00342 *)
+Theorem C14_output_docstring_untouched :
+  guard_C14 (w_call w_in [L "f.a"] w_out_doc [L "g.x"] None) = true
+  /\ C14_at_b (w_call w_in [L "f.a"] w_out_doc [L "g.x"] None) = true.
+Proof. exact C14_regression_docstring. Qed.
+Print Assumptions C14_output_docstring_untouched.
+
+Theorem C14_keyword_only_input_applied :
+  guard_C14 (w_call w_in_kw [L "f.a"] w_out [L "g.x"] None) = true
+  /\ C14_at_b (w_call w_in_kw [L "f.a"] w_out [L "g.x"] None) = true.
+Proof. exact C14_regression_kwonly. Qed.
+Print Assumptions C14_keyword_only_input_applied.
 
 Theorem C14_default_written_to_wrong_argument :
   C14_domain (w_call w_in_ann [L "a"] w_out_method [L "C.m.a"] None) = true
